@@ -51,3 +51,8 @@ Proof. destruct a; reflexivity. Qed.
 Definition all_libs : list lib :=
   [LAsset; LImages; LEffects; LMaterials; LAnimations; LGeometry; LControllers; LLights;
    LCameras; LNodes; LScenes; LDefaultScene].
+
+(* built-in exception classes that may be named in common.DaeRawLoadErrors *)
+Inductive pycls :=
+  | PC_ValueError | PC_TypeError | PC_AttributeError | PC_LookupError | PC_IndexError | PC_KeyError
+  | PC_ArithmeticError | PC_Exception.
